@@ -52,7 +52,6 @@ def errName : Err → String
   | .pasteAtEnd => "pasteAtEnd"
   | .pasteInvalid => "pasteInvalid"
   | .lexError => "lexError"
-  | .nullDeref => "nullDeref"
   | .macroNameNotIdent => "macroNameNotIdent"
   | .expectedIdent => "expectedIdent"
   | .errorDirective => "errorDirective"
